@@ -34,21 +34,35 @@ func readHarnessFiles(verifDir, repo, prop string) ([]*harnessFile, error) {
 		return nil, err
 	}
 	var out []*harnessFile
+	type src struct{ path, name string }
+	var srcs []src
 	for _, e := range ents {
-		if !strings.HasSuffix(e.Name(), ".go") {
-			continue
+		if strings.HasSuffix(e.Name(), ".go") {
+			srcs = append(srcs, src{filepath.Join(dir, e.Name()), e.Name()})
 		}
-		b, err := os.ReadFile(filepath.Join(dir, e.Name()))
+	}
+	// INCLUDE lists shared files (models, fakes), one path per line relative to harness/
+	if inc, err := os.ReadFile(filepath.Join(dir, "INCLUDE")); err == nil {
+		for _, l := range strings.Split(string(inc), "\n") {
+			l = strings.TrimSpace(l)
+			if l == "" || strings.HasPrefix(l, "#") {
+				continue
+			}
+			srcs = append(srcs, src{filepath.Join(verifDir, "harness", l), "inc_" + strings.ReplaceAll(l, "/", "_")})
+		}
+	}
+	for _, e := range srcs {
+		b, err := os.ReadFile(e.path)
 		if err != nil {
 			return nil, err
 		}
 		m := pkgDirective.FindSubmatch(b)
 		pm := pkgClause.FindSubmatch(b)
 		if m == nil || pm == nil {
-			return nil, fmt.Errorf("%s: missing //verif:pkg or package clause", e.Name())
+			return nil, fmt.Errorf("%s: missing //verif:pkg or package clause", e.name)
 		}
-		hf := &harnessFile{src: filepath.Join(dir, e.Name()), pkgDir: string(m[1]), pkgName: string(pm[1]), data: b}
-		hf.virt = filepath.Join(repo, hf.pkgDir, "zz_verif_"+prop+"_"+e.Name())
+		hf := &harnessFile{src: e.path, pkgDir: string(m[1]), pkgName: string(pm[1]), data: b}
+		hf.virt = filepath.Join(repo, hf.pkgDir, "zz_verif_"+prop+"_"+e.name)
 		out = append(out, hf)
 	}
 	return out, nil
@@ -457,7 +471,13 @@ func report(eng *Engine, prop, tier string, seed int, specs []*HarnessSpec, resu
 			status := "UNCONFIRMED"
 			detail := ""
 			if !noReplay {
-				ok, out := nativeReplay(rp, verifDir, repo, gowork, files, v)
+				var ok bool
+				var out string
+				if s.Opts["replay"] == "interp" {
+					ok, out = eng.ConfirmInterp(s, v)
+				} else {
+					ok, out = nativeReplay(rp, verifDir, repo, gowork, files, v)
+				}
 				detail = out
 				if ok {
 					status = "CONFIRMED"
